@@ -133,6 +133,18 @@ CLAIMED = {
         design_ref="DESIGN.md 3 C09, 8",
         note="Glue only. GLS254, signing and ECDH key-derivation glue are not posed (ECDH totality: C19, constant time: C02).",
     ),
+    "C06": dict(
+        engine="llsym",
+        technique="symbolic execution of optimized LLVM IR of every Point::set_decode with all bytes symbolic; bit-vector queries (z3) on over-approximated cones for: exact status, failure => NEUTRAL, rejection of every byte-level forbidden string",
+        category="model_checking",
+        text=("Strictness half of the property: for every group and each length in the bound, decoding rejects wrong "
+              "lengths, field-level non-canonical coordinates (>= p), forbidden headers / sign / padding bits, and on "
+              "failure returns status 0 with the neutral; SEC1 curves accept the one-byte 00 and reject 32/64-byte strings."),
+        design_ref="DESIGN.md 3 C06, 8",
+        note=("The algebraic half (encode(decode(b))=b, equality <=> equal encodings, coset independence, maps land on the "
+              "curve) needs field semantics and is not posed. For coordinates that are products of cleared coordinates the "
+              "failure => NEUTRAL claim is restricted to the words decided (stated per obligation)."),
+    ),
     "C07": dict(
         engine="llsym",
         technique="path-forking symbolic execution of optimized LLVM IR with contract stubs at cut-point functions (point/scalar decoding, SHA-512 compression as uninterpreted function, verification helper); z3 decides path conditions and results; native replay against a reference verifier",
@@ -179,7 +191,7 @@ man = {
     "engines": [
         {"name": "polyid", "path": "engines/polyid", "serves_properties": ["C03"],
          "kind_free_text": "interpreter over rustc MIR executing point formulas over an abstract ring; z3 decides polynomial identities"},
-        {"name": "llsym", "path": "engines/llsym", "serves_properties": ["C01", "C02", "C05", "C07", "C08", "C09", "C11", "C12", "C18", "C19", "C20"],
+        {"name": "llsym", "path": "engines/llsym", "serves_properties": ["C01", "C02", "C05", "C06", "C07", "C08", "C09", "C11", "C12", "C18", "C19", "C20"],
          "kind_free_text": "symbolic executor over rustc's optimized LLVM IR (concrete control, symbolic data) with bit-vector and integer SMT encodings; z3/cvc5 decide"},
     ],
     "checks": checks,
